@@ -92,14 +92,28 @@ def run(prog: Program, rep, thorough: bool) -> None:
     _locs, why = taint(cfg, deps, request, exempt_tests={F.loop_head.id})
     # sinks: the state, what the physics reads, every solver attribute
     state = {F.t, F.P, F.V, F.rho, F.a}
-    phys_names = set()
-    for n in cfg.nodes:
-        if F.in_loop(n) and n.kind == 'stmt' and n.ast is not None:
-            for d in defs_of(n):
-                if d.split('.')[0] in ('ranges', 'data', 'it') or d in request:
-                    continue
-                phys_names.add(d)
-    sinks = sorted(state | phys_names)
+    # what the physics reads: the backward closure (data dependence, and the tests that control the defining
+    # statements) of the state variables over the statements of the loop.  A local that only feeds the row list - a
+    # row kept in a variable before it is appended, say - is not in it.
+    cd = cfg.control_dependence()
+    phys_names = set(state)
+    work = list(state)
+    while work:
+        cur = work.pop()
+        for n in cfg.nodes:
+            if not (F.in_loop(n) and n.ast is not None) or n is F.loop_head:
+                continue
+            if not any(d == cur or d.startswith(cur + '.') or cur.startswith(d + '.') for d in defs_of(n)):
+                continue
+            used = set(deps.uses[n.id])
+            for t_, _lab in cd[n.id]:
+                if cfg.nodes[t_] is not F.loop_head:
+                    used |= set(deps.uses[t_])
+            for u in used:
+                if u not in phys_names and u not in request:
+                    phys_names.add(u)
+                    work.append(u)
+    sinks = sorted(state | {p_ for p_ in phys_names if p_ not in request})
     n_ok = 0
     for s in sinks:
         hit = None
